@@ -196,16 +196,19 @@ def int_to_bytes(x, length, byteorder='big', signed=False):
     if isinstance(x, int):
         return x.to_bytes(length, byteorder, signed=signed)
     cx = ctx()
+    core.note_use(x)
     lim = 1 << (8 * length)
+    with core.range_check():
+        if signed:
+            bad = (not (-(lim >> 1) <= x) or not (x < (lim >> 1))) and 'int too big to convert'
+        else:
+            bad = ("can't convert negative int to unsigned" if (x < 0) else
+                   ('int too big to convert' if not (x < lim) else False))
+    if bad:
+        raise OverflowError(bad)
     if signed:
-        if not (-(lim >> 1) <= x) or not (x < (lim >> 1)):
-            raise OverflowError('int too big to convert')
         ux = core.sx_ite(x < 0, x + lim, x)
     else:
-        if x < 0:
-            raise OverflowError("can't convert negative int to unsigned")
-        if not (x < lim):
-            raise OverflowError('int too big to convert')
         ux = x
     if isinstance(ux, int):
         return ux.to_bytes(length, byteorder)
@@ -216,6 +219,8 @@ def int_to_bytes(x, length, byteorder='big', signed=False):
         cx.keep.append(ux.t)
         cx._assert(ux.t == z3.Sum([core.term_of(b) * (1 << (8 * k)) for k, b in enumerate(bs)]))
         cx.memo[key] = bs
+        # unpack(pack(x)) is x itself (keeps re-encoding syntactically identical)
+        cx.memo[('unpack', tuple(b.t.get_id() for b in bs))] = (x, signed)
     items = list(bs)
     if byteorder == 'big':
         items.reverse()
@@ -228,6 +233,10 @@ def bytes_to_int(b, byteorder='big', signed=False):
     items = b.items()
     if byteorder == 'big':
         items = list(reversed(items))
+    if core.active() and all(isinstance(v, SymInt) for v in items):
+        hit = ctx().memo.get(('unpack', tuple(v.t.get_id() for v in items)))
+        if hit is not None and hit[1] == signed:
+            return hit[0]
     x = 0
     for k, v in enumerate(items):
         x = x + v * (1 << (8 * k))
